@@ -227,6 +227,9 @@ func (e *Engine) execFrom(st *State, fr *frame, b *ssa.BasicBlock, i int, pred *
 			e.onPanic(st, fr, ins)
 			return
 		case *ssa.Call:
+			if fr.top && e.cur != nil {
+				e.runHooks(st, e.cur.hooksBefore[ins], ins.Pos())
+			}
 			outs := e.doCall(st, ins.Common(), ins, ins.Pos())
 			for _, o := range outs {
 				if o.panicked {
@@ -254,6 +257,11 @@ func (e *Engine) execFrom(st *State, fr *frame, b *ssa.BasicBlock, i int, pred *
 			st.env[ins] = e.val(st, ins.Edges[idx])
 		default:
 			e.execInstr(st, fr, b.Instrs[i])
+			if fr.top && e.cur != nil {
+				if _, isStore := b.Instrs[i].(*ssa.Store); isStore {
+					e.runHooks(st, e.cur.hooksAfter[b.Instrs[i]], b.Instrs[i].Pos())
+				}
+			}
 		}
 	}
 }
